@@ -17,12 +17,16 @@
 #include <time.h>
 #include <unistd.h>
 
+// The engine is linked with -Wl,--wrap=syscall (sim/blockwrap.cpp emulates futex waits of simulated threads); the
+// scheduler's own hand-off must reach the kernel.
+extern "C" long __real_syscall(long number, ...);
+
 namespace {
 
 int futex_wait(volatile int* addr, int val, const struct timespec* to) {
-  return (int)syscall(SYS_futex, addr, FUTEX_WAIT_PRIVATE, val, to, nullptr, 0);
+  return (int)__real_syscall(SYS_futex, addr, FUTEX_WAIT_PRIVATE, val, to, nullptr, 0);
 }
-int futex_wake(volatile int* addr) { return (int)syscall(SYS_futex, addr, FUTEX_WAKE_PRIVATE, 1, nullptr, nullptr, 0); }
+int futex_wake(volatile int* addr) { return (int)__real_syscall(SYS_futex, addr, FUTEX_WAKE_PRIVATE, 1, nullptr, nullptr, 0); }
 
 struct Rng {
   uint64_t s;
@@ -291,7 +295,7 @@ void sch_thread_end(int tid) {
 
 void sch_release_threads(void) {
   __atomic_store_n(&S.run_done, 1, __ATOMIC_SEQ_CST);
-  syscall(SYS_futex, &S.run_done, FUTEX_WAKE_PRIVATE, 1 << 20, nullptr, nullptr, 0);
+  __real_syscall(SYS_futex, &S.run_done, FUTEX_WAKE_PRIVATE, 1 << 20, nullptr, nullptr, 0);
 }
 
 int sch_run(uint32_t watchdog_seconds) {
